@@ -50,6 +50,7 @@ typedef struct
 
 } Skinny64CTRVec128Ctx_t;
 
+static void skinny64_ctr_vec128_reset_keystream(Skinny64CTRVec128Ctx_t *ctx);
 static int skinny64_ctr_vec128_set_counter
     (Skinny64CTR_t *ctr, const void *counter, unsigned size);
 
@@ -96,7 +97,7 @@ static int skinny64_ctr_vec128_set_key(Skinny64CTR_t *ctr, const void *key, unsi
         return 0;
 
     /* Reset the keystream */
-    ctx->offset = SKINNY64_CTR_BLOCK_SIZE;
+    skinny64_ctr_vec128_reset_keystream(ctx);
     return 1;
 }
 
@@ -117,7 +118,7 @@ static int skinny64_ctr_vec128_set_tweaked_key
         return 0;
 
     /* Reset the keystream */
-    ctx->offset = SKINNY64_CTR_BLOCK_SIZE;
+    skinny64_ctr_vec128_reset_keystream(ctx);
     return 1;
 }
 
@@ -136,7 +137,7 @@ static int skinny64_ctr_vec128_set_tweak
         return 0;
 
     /* Reset the keystream */
-    ctx->offset = SKINNY64_CTR_BLOCK_SIZE;
+    skinny64_ctr_vec128_reset_keystream(ctx);
     return 1;
 }
 
@@ -159,6 +160,42 @@ STATIC_INLINE void skinny64_ctr_increment
         ptr[0] = (uint8_t)inc;
         inc >>= 8;
     }
+}
+
+/* Decrement a specific column in an array of row vectors */
+STATIC_INLINE void skinny64_ctr_decrement
+    (SkinnyVector8x16_t *counter, unsigned column, unsigned dec)
+{
+    uint8_t *ctr = ((uint8_t *)counter) + column * 2;
+    uint8_t *ptr;
+    unsigned index;
+    for (index = 8; index > 0; ) {
+        --index;
+        ptr = ctr + (index & 0x06) * 8;
+#if SKINNY_LITTLE_ENDIAN
+        ptr += index & 0x01;
+#else
+        ptr += 1 - (index & 0x01);
+#endif
+        dec = ptr[0] - dec;
+        ptr[0] = (uint8_t)dec;
+        dec = (dec >> 8) & 1;
+    }
+}
+
+/* Discards the buffered keystream after a key or tweak change.  The change
+   takes effect at the next block boundary, exactly as in the generic back
+   end, so the lane counters are rewound over the blocks of the current
+   batch that were generated but never used */
+static void skinny64_ctr_vec128_reset_keystream(Skinny64CTRVec128Ctx_t *ctx)
+{
+    if (ctx->offset < SKINNY64_CTR_BLOCK_SIZE) {
+        unsigned unused = (SKINNY64_CTR_BLOCK_SIZE - ctx->offset) / SKINNY64_BLOCK_SIZE;
+        unsigned column;
+        for (column = 0; column < 8; ++column)
+            skinny64_ctr_decrement(ctx->counter, column, unused);
+    }
+    ctx->offset = SKINNY64_CTR_BLOCK_SIZE;
 }
 
 static int skinny64_ctr_vec128_set_counter
